@@ -108,6 +108,17 @@ PROPS = {
         "real": "receiver.Receiver (Run, RunOnce, Next, MarkCorrupt), Downloader, climit, snapshot.LoadData; fleet-runonce: the whole syncer",
         "assumptions": ["the number of held snapshots is read from the repository's own lightningstream_climit_active gauge"],
     },
+    "C13": {
+        "level": "exploration",
+        "profiles": [{"name": "sweeper-sim", "weight": 1}],
+        "rule": "each case is one pass of the real tomb sweeper over a real LMDB (1-3 DBIs of 150-3600 entries, live entries and runs of "
+                "identical markers with timestamps on both sides of and exactly at the cut-off, native and non-native) whose write-lock slices are "
+                "ended by the scheduler at the limit scanner's deadline checks, with an application committing puts, markers and real deletes "
+                "between slices biased to the resume key; the end state is compared entry by entry with the start state; non-trivial = at least one "
+                "forced slice end and at least one expired marker; distinct = distinct SHA-256 of the event log",
+        "real": "sweeper.Sweeper (one pass via the guarded VerifSweep wrapper), limitscanner, header parser, LMDB",
+        "assumptions": ["the pass's cut-off is taken at the instant the pass is started (no fake time passes inside a scheduler step)"],
+    },
 }
 
 ALL_PROFILES = sorted({p["name"] for c in PROPS.values() for p in c["profiles"]})
@@ -161,4 +172,7 @@ MANIFEST_TEXT = {
                     "drain; run-once instances end exactly after merging everything present at start-up.",
             "note": SIM_NOTE + " Held snapshots are counted through the repository's own lightningstream_climit_active gauge.",
             "technique": "deterministic simulation (component + fleet) + safety invariant on token gauges + bounded liveness"},
+    "C13": {"text": "One real sweeper pass per run over thousands of generated entries, sliced at scheduler-chosen deadline checks, with application commits "
+                    "between slices aimed at the resume key; exact comparison: removed = expired untouched markers, everything else byte-identical, application DBIs untouched in non-native mode.",
+            "note": SIM_NOTE, "technique": "deterministic simulation (component, buggified slice deadlines, interleaved application commits) + exact before/after model"},
 }
